@@ -5,6 +5,7 @@
 //   - "wrapped" dag-pb leaf with inline data written by boxo (protobuf leaves, one chunk), v0 and v1;
 //   - builder files, width 2 and 3, "size-4", chunk counts 2..12 | 2..30 (multi-level);
 //   - boxo balanced and trickle files with protobuf leaves, width 2, chunk counts {2,5,9} | 2..20.
+//
 // For each file 200 | 4000 random histories (VERIF_SEED) of 30 operations spread over TWO readers
 // obtained separately from the same node: Seek(off, Start|Current|End) with targets in
 // [-len-3, len+3], Read(k) with k in 1..len+2. Oracle: a position/content model with the
